@@ -5,3 +5,9 @@ open MtailVerif.C11
 #print axioms datum_words_atomic
 #print axioms atomic_increments_not_lost
 #print axioms load_store_loses_an_increment
+#print axioms MtailVerif.C11.f_runtime_runtime_skeletons
+#print axioms MtailVerif.C11.f_metrics_store_skeletons
+#print axioms MtailVerif.C11.f_exporter_prometheus_skeletons
+#print axioms MtailVerif.C11.f_metrics_metric_skeletons
+#print axioms MtailVerif.C11.f_datum_int_skeletons
+#print axioms MtailVerif.C11.f_exporter_export_skeletons
